@@ -58,10 +58,36 @@ def rule_early_check(ctx):
     # the sink fails with 1009
     sk = wsp.methods["_max_message_size_exceeded"]
     ctx.analysed(sk)
-    g2, mf2, res2 = an.get(sk)
-    fc = [(n, c) for n in g2.stmt_nodes() for c in node_calls(n) if self_call(c, "_fail_connection")]
-    ok = len(fc) == 1 and fc[0][1].args and norm.key(fc[0][1].args[0], res2) == ("c", 1009) and g2.always_followed_by(g2.entry, lambda x: x is fc[0][0])
-    ctx.ob("_max_message_size_exceeded fails the connection with 1009 on every path", bool(ok), "sink no longer calls _fail_connection(1009, ...) unconditionally", sk.loc())
+    # evaluated (sa.core.tiny) on what the call sites hand in: whatever the sizes, the connection is failed exactly once, with 1009 and the given reason
+    probs = []
+    try:
+        prm_ = sk.params()[1:]
+        consts_ = {}
+        for s_ in wsp.node.body:
+            if isinstance(s_, ast.Assign) and len(s_.targets) == 1 and isinstance(s_.targets[0], ast.Name) and isinstance(s_.value, ast.Constant) and isinstance(s_.value.value, int):
+                consts_[s_.targets[0].id] = s_.value.value
+        for size, limit in ((11, 10), (2 ** 40, 1), (10, 10)):
+            fired = []
+            reason = Sym("reason-text")
+            env = {"self": Sym("p"), "WebSocketProtocol": Sym("class WebSocketProtocol", **consts_), "self.log": Sym("log")}
+            env.update({f"WebSocketProtocol.{k_}": v_ for k_, v_ in consts_.items()})
+            env.update({f"self.{k_}": v_ for k_, v_ in consts_.items()})
+            for nm_, v_ in zip(prm_, (size, limit, reason)):
+                env[nm_] = v_
+            t = Tiny(env, default_call=lambda f_, a_, k_=None: fired.append((f_, list(a_))) or Sym(f"<{f_}>"), opaque_globals=True, model_strings=True,
+                     inline_self=inline_private(ctx, wsp, exclude=("_fail_connection", "_trigger")))
+            r = t.run([x for x in sk.node.body if not (isinstance(x, ast.Expr) and isinstance(x.value, ast.Constant))])
+            fc_ = [a for f_, a in fired if f_ == "self._fail_connection"]
+            cell = f"size {size}, limit {limit}"
+            if r[0] == "raise":
+                probs.append(f"{cell}: raises {r[1]}")
+            elif len(fc_) != 1 or not fc_[0] or fc_[0][0] != 1009:
+                probs.append(f"{cell}: _fail_connection called {len(fc_)} time(s){' with ' + str(fc_[0][0]) if fc_ and fc_[0] else ''}, expected once with 1009")
+            elif len(fc_[0]) < 2 or fc_[0][1] is not reason:
+                probs.append(f"{cell}: the reason handed to _fail_connection is {fc_[0][1:] or 'missing'}")
+    except AnalysisError as e:
+        raise AnalysisError(f"[C16.1-early-limit-check] _max_message_size_exceeded outside the modelled subset: {e}")
+    ctx.ob("_max_message_size_exceeded fails the connection exactly once, with 1009 and the reason given [3 cells]", not probs, "; ".join(probs[:2]), sk.loc())
     # reset per message
     mb = wsp.methods["onMessageBegin"]
     g3, mf3, res3 = an.get(mb)
